@@ -163,6 +163,9 @@ func main() {
 			c.An.Mode = *viewFlag
 			c.P.Skip = newHelpers(c.P, c.An.Baseline)
 		}
+		for _, rn := range P.Renamed {
+			R.Notes = append(R.Notes, "renamed anchor recovered (the rules are applied to it under its old name): "+rn)
+		}
 		R.Analysed["packages"] = len(P.Pkgs)
 		R.Analysed["files"] = P.NFiles
 		R.Analysed["functions"] = len(P.Funcs)
